@@ -483,6 +483,24 @@ def new_bases(prog, m, tree, klass, other_of, depth=3):
     return out
 
 
+def new_inherited_methods(prog, m, tree, klass, other_of, other_tree, depth=3):
+    """methods klass inherits from base classes of the same module that exist on both sides, and that only this side defines there"""
+    out, todo, seen = {}, [(klass, 0)], set()
+    here, there = top_classes(tree), top_classes(other_tree)
+    while todo:
+        k, d = todo.pop(0)
+        for b in k.bases:
+            if isinstance(b, ast.Name) and b.id in here and b.id in there and b.id not in seen:
+                seen.add(b.id)
+                mine, theirs = methods_of(here[b.id]), methods_of(there[b.id])
+                for name, fn in mine.items():
+                    if name not in theirs:
+                        out.setdefault(name, fn)
+                if d < depth:
+                    todo.append((here[b.id], d + 1))
+    return out
+
+
 def _strip_doc(body):
     if body and isinstance(body[0], ast.Expr) and isinstance(body[0].value, ast.Constant) and isinstance(body[0].value.value, str):
         return body[1:]
@@ -566,7 +584,10 @@ def with_helpers(fn, funcs, meths, depth=3):
         if isinstance(call.func, ast.Name) and call.func.id in funcs and call.func.id not in locals_fn:
             return funcs[call.func.id][0], None
         if meths and isinstance(call.func, ast.Attribute) and isinstance(call.func.value, ast.Name) and call.func.value.id == selfname and \
-                isinstance(meths.get(call.func.attr), ast.AST) and not meths[call.func.attr].decorator_list:
+                isinstance(meths.get(call.func.attr), ast.AST) and (not meths[call.func.attr].decorator_list or (
+                    # a classmethod helper called on `cls` from a classmethod
+                    [getattr(d, "id", None) for d in meths[call.func.attr].decorator_list] == ["classmethod"] and
+                    any(getattr(d, "id", None) == "classmethod" for d in fn.decorator_list))):
             return meths[call.func.attr], ast.Name(id=selfname, ctx=ast.Load())
         return None, None
 
